@@ -338,10 +338,15 @@ fn run<C: Cs>(ctx: &Ctx, idx: u64, nmax: usize, with_trusted: bool) {
             if let Some(ck) = &own {
                 // the trusted party's key needs bases for the hidden positions only: exactly n, roomy (nmax), or just enough
                 let covering = u.iter().max().unwrap() + 1;
-                let size = [n, covering, nmax][rand_range(&mut r, 3)];
-                ctx.count(&format!("trusted_key_bases_{}", if size == n { "exactly_n" } else if size < n { "fewer_than_n" } else { "more_than_n" }), 1);
-                let ckn = CL03CommitmentPublicKey { N: ck.N.clone(), h: ck.h.clone(), g_bases: ck.g_bases[..size].to_vec() };
-                issuance::<C>(ctx, &st, Some(&ckn), &mut r, n, u, tamper);
+                let mut sizes = vec![[n, nmax][rand_range(&mut r, 2)]];
+                if covering < n {
+                    sizes.push(covering);
+                }
+                for size in sizes {
+                    ctx.count(&format!("trusted_key_bases_{}", if size == n { "exactly_n" } else if size < n { "fewer_than_n" } else { "more_than_n" }), 1);
+                    let ckn = CL03CommitmentPublicKey { N: ck.N.clone(), h: ck.h.clone(), g_bases: ck.g_bases[..size].to_vec() };
+                    issuance::<C>(ctx, &st, Some(&ckn), &mut r, n, u.clone(), tamper && size >= n);
+                }
             }
         }
     }
